@@ -49,6 +49,7 @@ PROPERTY_RULES: Dict[str, List[Scoped]] = {
         _r("RESULT-SCOPE", S_THL), _r("TRAVERSAL", ("compute.reconciliation:_compute_thl",)),
         _r("POLICY-FLOW", S_THL), _r("EVENT-TABLE"), _r("SOLVER-STATELESS", P_THL), _r("RECURSE-FORWARD", S_THL),
         _r("COST-TRUTH", S_THL), _r("READONLY-INPUT", S_THL), _r("ITERATOR-REUSE", S_THL), _r("MEMO-KEY", S_THL),
+        _r("DERIVED-QUERIES"), _r("OPTIONAL-CHECKED", S_THL), _r("RESULT-UNCONDITIONAL", S_THL),
     ],
     "C02": [
         _r("SENTINEL", S_SPFS, S_SUBSEQ), _r("COSTKEYS", S_SPFS), _r("PRUNE", S_SPFS), _r("EVENT-SIG", S_SPFS),
@@ -58,6 +59,7 @@ PROPERTY_RULES: Dict[str, List[Scoped]] = {
         _r("TRAVERSAL", S_SPFS), _r("GRAPH-KEYS", S_SPFS), _r("BASE-EXT-SHARE", S_SPFS), _r("POLICY-FLOW", S_SPFS),
         _r("SOLVER-STATELESS", P_SPFS), _r("READONLY-GRAPH"),
         _r("COST-TRUTH", S_SPFS), _r("READONLY-INPUT", S_SPFS), _r("ITERATOR-REUSE", S_SPFS + S_MODEL), _r("MEMO-KEY", S_SPFS),
+        _r("RESULT-UNCONDITIONAL", S_SPFS), _r("OPTIONAL-CHECKED", S_SPFS), _r("NONE-SENTINEL-TRUTH", S_SUBSEQ),
     ],
     "C03": [
         _r("READONLY-DECODE", S_USPFS), _r("COSTKEYS", S_USPFS), _r("PRUNE", S_USPFS), _r("EVENT-SIG", S_USPFS),
@@ -67,12 +69,14 @@ PROPERTY_RULES: Dict[str, List[Scoped]] = {
         _r("TRAVERSAL", S_USPFS), _r("BASE-EXT-SHARE", S_USPFS), _r("POLICY-FLOW", S_USPFS),
         _r("DECODE-CONTENT-FLOW"), _r("SOLVER-STATELESS", P_USPFS),
         _r("COST-TRUTH", S_USPFS), _r("READONLY-INPUT", S_USPFS), _r("ITERATOR-REUSE", S_USPFS + S_MODEL), _r("MEMO-KEY", S_USPFS),
+        _r("RESULT-UNCONDITIONAL", S_USPFS), _r("ELEMENT-UPDATE", S_USPFS),
     ],
     "C04": [
         _r("DECODE-GUARD"), _r("DECODE-COMPLETE"), _r("LEAF-ANCHOR"), _r("SENTINEL"), _r("READONLY-DECODE"),
         _r("COMBINE-ORIENT"), _r("INFO-KEY"), _r("CLASS-DOMAIN"), _r("EVENT-EXHAUSTIVE"), _r("EVENT-TABLE"),
         _r("DECODE-CONTENT-FLOW"),
         _r("SOLVER-STATELESS", P_SOLVE), _r("MEMO-KEY"), _r("READONLY-INPUT"), _r("ORDER-PRESERVED"), _r("NO-PRUNED-TRAVERSAL", S_COMPUTE + S_MODEL),
+        _r("LABEL-GUARD"), _r("RECURSE-FORWARD", S_TREES), _r("ELEMENT-UPDATE"), _r("FIELD-SOURCE"),
     ],
     "C05": [
         _r("POLICY-FLOW"), _r("DECODE-PRODUCT"), _r("RESULT-SCOPE"), _r("PRUNE"), _r("UPDATE-PAIRING"),
@@ -82,12 +86,14 @@ PROPERTY_RULES: Dict[str, List[Scoped]] = {
         _r("EVENT-SIG"), _r("COSTKEYS"), _r("CLASS-DOMAIN"), _r("MIRROR"), _r("INFO-KEY"), _r("COMBINE-ORIENT"),
         _r("DECODE-CONTENT-FLOW"), _r("READONLY-DECODE"), _r("SOLVER-STATELESS", P_SOLVE),
         _r("MEMO-KEY"), _r("EQ-BY-FIELDS"), _r("ITERATOR-REUSE", S_COMPUTE),
+        _r("BASE-EXT-SHARE"), _r("RESULT-UNCONDITIONAL"),
     ],
     "C06": [
         _r("MODEL-TABLE"), _r("LABEL-SIBLINGS"), _r("EVENT-EXHAUSTIVE"), _r("EVENT-TABLE"), _r("CONSERVED-SIDE"),
         _r("TRAVERSAL", S_EVAL), _r("CLI-COST-SOURCE"), _r("COST-PASSTHROUGH", S_CLI),
         _r("SOLVER-STATELESS", S_MODEL + S_TREES + S_SUBSEQ),
         _r("COST-TRUTH", S_MODEL + S_CLI), _r("FIELD-COPY-COMPLETE", S_CLI),
+        _r("DERIVED-QUERIES"),
     ],
     "C07": [
         _r("LCA-PROPAGATE"), _r("TRAVERSAL", ("compute.reconciliation:reconcile_lca",)),
@@ -100,11 +106,13 @@ PROPERTY_RULES: Dict[str, List[Scoped]] = {
         _r("FRESH-ATTACH", ("utils.trees:graft", "utils.trees:arrange_leaves", "utils.trees:binarize")),
         _r("TRAVERSAL", ("utils.trees:binarize",)), _r("RECURSE-FORWARD", S_TREES), _r("LABEL-GUARD"),
         _r("ITERATOR-REUSE", S_MODEL + S_TREES + S_COMPUTE), _r("ORDER-PRESERVED"),
+        _r("RESULT-UNCONDITIONAL", S_SPFS, S_USPFS), _r("FIELD-SOURCE"), _r("SOLVER-STATELESS", S_TREES + S_MODEL),
     ],
     "C09": [
         _r("MIRROR"), _r("CLASS-DOMAIN"), _r("COST-HOMOGENEOUS"), _r("READONLY-DECODE"),
         _r("SOLVER-STATELESS", P_SOLVE),
         _r("COST-MONOTONE"), _r("MEMO-KEY"), _r("READONLY-INPUT"),
+        _r("SORT-KEY-ALIGNED"),
     ],
     "C10": [
         _r("BASE-EXT-SHARE"), _r("EVENT-SIG"), _r("COSTKEYS"), _r("SIBLING-PAIRING"), _r("READONLY-DECODE"),
@@ -114,30 +122,36 @@ PROPERTY_RULES: Dict[str, List[Scoped]] = {
         _r("DICT-KEYS"), _r("FIELDS-SERIALISED"), _r("TREE-WRITE-ARGS"), _r("ENUM-DISJOINT"), _r("MAPPING-KEYING"),
         _r("COST-PASSTHROUGH", S_MODEL), _r("SOLVER-STATELESS", S_MODEL + S_TREES),
         _r("COST-TRUTH", S_MODEL), _r("ORDER-PRESERVED"),
+        _r("FIELD-SOURCE"),
     ],
     "C12": [
-        _r("LABEL-PASS", ("cli.",)), _r("LABEL-GUARD"), _r("REGISTRY-SIGNATURE"), _r("CHOICES-ENUM"),
+        _r("LABEL-GUARD"), _r("REGISTRY-SIGNATURE"), _r("CHOICES-ENUM"),
         _r("ERROR-PATH"), _r("COST-OPTIONS"), _r("CLI-COST-SOURCE"), _r("COST-PASSTHROUGH"), _r("DISPATCH-KEYS"),
         _r("COST-TRUTH", S_CLI + S_MODEL), _r("FIELD-COPY-COMPLETE", S_CLI), _r("RESULT-SCOPE"),
+        _r("LABEL-PASS", ("cli.", "compute.")), _r("LAYOUT-SIDES"), _r("LOSS-CHAIN"), _r("SORT-KEY-ALIGNED"), _r("RESULT-UNCONDITIONAL"),
     ],
     "C13": [
         _r("KIND-EXHAUSTIVE"), _r("KIND-AGREE"), _r("ONE-EVENT-NODE"), _r("ONE-ARROW"), _r("LOSS-MARKERS"),
         _r("STYLE-DEFINED"), _r("MEASURE-LOCKSTEP"), _r("IDENTITY-KEYS"), _r("SOLVER-STATELESS", S_RENDER),
         _r("NO-PRUNED-TRAVERSAL", S_RENDER), _r("LOSS-CHAIN"), _r("SIGMA-DRAW"), _r("LAYOUT-SIDES"),
+        _r("NO-TOPOLOGY-WRITE"),
     ],
     "C14": [
         _r("SIGMA-INVARIANCE"), _r("SIGMA-CLOSURE"), _r("SOLVER-STATELESS", ("render.layout:", "utils.geometry:")),
         _r("LOSS-CHAIN"), _r("LAYOUT-SIDES"),
+        _r("NO-TOPOLOGY-WRITE"),
     ],
     "C15": [
         _r("TEMPLATE-BRACES"), _r("TEMPLATE-TERMINATED"), _r("PICTURE-ENV"), _r("COLOR-INTERN"),
         _r("ESCAPE-TAINT"), _r("ESCAPE-ORDER"), _r("LABEL-OMIT"), _r("PREORDER-STATE", ("render.",)),
         _r("COLOR-SOURCE"), _r("WRAP-DISCIPLINE"),
         _r("COLOR-INHERIT"),
+        _r("ORDER-PRESERVED"), _r("SOLVER-STATELESS", ("utils.text:", "utils.tex:", "render.", "model.synteny:")), _r("MEMO-KEY"),
     ],
     "C16": [
         _r("UPDATE-PAIRING"), _r("RETENTION-GUARDS"), _r("POLARITY"), _r("PROXY-NONE"), _r("COMBINE-PRODUCT"),
         _r("TABLE-FRESH-CELLS"),
+        _r("ENTRY-OWNS-TAGS"), _r("SOLVER-STATELESS", S_DP),
     ],
     "C17": [
         _r("DERIVED-QUERIES"), _r("EULER-INDEX"), _r("RMQ-WINDOWS"),
@@ -147,11 +161,14 @@ PROPERTY_RULES: Dict[str, List[Scoped]] = {
     "C19": [
         _r("RESTORE-PAIRING"), _r("FRESH-STARTS"), _r("INDEG-INIT"), _r("GRAPH-KEYS"), _r("READONLY-GRAPH"),
         _r("EMPTY-RESULT-GUARD"),
+        _r("SOLVER-STATELESS", S_SUBSEQ), _r("NONE-SENTINEL-TRUTH", S_SUBSEQ), _r("MEMO-KEY", S_SUBSEQ),
+        _r("SOLVER-STATELESS", ("utils.toposort:",)), _r("MEMO-KEY", ("utils.toposort:",)),
     ],
     "C20": [
         _r("COPY-BEFORE-MUTATE"),
         _r("FRESH-ATTACH", ("utils.trees:tree_", "utils.trees:all_trees", "utils.trees:trees_")),
         _r("GROUPS-PAIRING"), _r("LEAVES-SOURCE"),
+        _r("SOLVER-STATELESS", ("utils.trees:", "utils.disjoint_set:")), _r("OPTIONAL-CHECKED", S_TREES), _r("MEMO-KEY", ("utils.trees:", "utils.disjoint_set:")),
     ],
 }
 
